@@ -38,6 +38,15 @@ def sig_of(e, events=None, k=None):
     f = J.features(prog) + list(e.get("mo", []))
     if f:
         return {"stage": "cli", "cause": f[0]}
+    # `V as $x | ... try error($x) catch .` answers "undefined variable: $x" (binding lost inside try)
+    try:
+        outs = (e.get("oe") or {}).get("out") or []
+        texts = ["".join(chr(c) for c in o.get("cp", [])) for o in outs if isinstance(o, dict) and o.get("t") == "str"]
+        m = [t for t in texts if t.startswith("undefined variable: $")]
+        if m and ("error(" + m[0][len("undefined variable: "):]) in prog.replace(" ", "") and "try" in prog:
+            return {"stage": "cli", "cause": "variable_unbound_in_error_inside_try"}
+    except Exception:
+        pass
     if e.get("dup"):
         return {"stage": "cli", "cause": "duplicate_keys_input", "prog": prog}
     return {"stage": "cli", "cause": "other", "prog": prog}
